@@ -270,7 +270,7 @@ class Walk:
             n0 = len(self.ev)
             self.expr(st.body[0].value, True, fr)
             self.lazy.setdefault(x, []).extend(n for k, n, _ in self.ev[n0:] if k == "r")
-            if any(k not in ("r",) for k, _, _ in self.ev[n0:]):
+            if any(k not in ("r", "ext") for k, _, _ in self.ev[n0:]):
                 self.lazy[x].append("<effect>")
             self.emit("wlazy", x, True)
             s_ = self.w.lookup(self.cname, "setters", x)
@@ -301,7 +301,9 @@ class Walk:
             for s in st.body:
                 self.stmt(s, cond, fr)
         elif isinstance(st, ast.Return):
-            if st.value is not None:
+            if isinstance(st.value, ast.Name) and st.value.id == "self":
+                pass                      # `return self` (fluent interface): no alias inside the analysed code
+            elif st.value is not None:
                 self.expr(st.value, cond, fr)
         elif isinstance(st, ast.Raise):
             if st.exc is not None:
@@ -396,6 +398,8 @@ class Walk:
             self.read_attr(e.attr, cond, fr)
             return
         if isinstance(e, ast.Attribute):
+            if _is_self_attr(e.value):
+                self.emit("ext", e.value.attr, cond)      # an attribute OF the object held in self.X is used
             self.expr(e.value, cond, fr)
             return
         if isinstance(e, ast.Call):
@@ -497,6 +501,8 @@ class Walk:
                 self.read_attr(f.attr, cond, fr)
                 return
             # method call on some object
+            if _is_self_attr(f.value):
+                self.emit("ext", f.value.attr, cond)
             self.expr(f.value, cond, fr)
             for a in e.args:
                 self.expr(a, cond, fr)
@@ -671,6 +677,15 @@ def extract_experimental(repo):
             "init_w": _uniq(n for k, n, _ in iv if k in ("w", "inplace", "append")),
             "hidden_random": _hidden_random(world, cname),
         }
+        # not part of the Coq record: helper OBJECTS step / tune use (their attributes or methods are accessed): what happens
+        # inside them is outside the analysis (target, proposal, prior ... are external: assumed not to depend on or modify
+        # the sampler); attributes the sample / warmup drivers themselves read
+        lv, _ = _events(world, cname, ["sample", "warmup"])
+        internal = set(f["state"]) | set(f["hist"]) | set(f["step_w"]) | set(f["tune_w"])
+        f["external"] = _uniq(n for k, n, _ in ev + tv if k == "ext" and n not in internal)
+        sv, _ = _events(world, cname, ["sample"])
+        f["sample_r"] = _uniq(n for k, n, _ in sv if k in ("r", "append", "inplace"))
+        f["warmup_r"] = _uniq(n for k, n, _ in lv if k in ("r", "append", "inplace"))
         out[cname] = f
     return out
 
@@ -840,6 +855,39 @@ def footprint_reasons(f):
     return out
 
 
+def with_tune(scr, f):
+    g = dict(f)
+    g["step_r"] = f["step_r"] + f["tune_r"]
+    g["step_w"] = f["step_w"] + f["tune_w"]
+    g["step_wfirst"] = f["step_wfirst"] + list(scr)
+    return g
+
+
+def warm_resume_ok(ex, scr, f):
+    return footprint_ok(ex, with_tune(scr, f))
+
+
+def warm_excuses(f):
+    """(ex, scr): hidden-random attributes tune reads outside the state; attributes step writes, tune reads, not saved"""
+    g = with_tune([], f)
+    sr = sem_reads(g)
+    ex = [a for a in sr if a in f["hidden_random"] and a not in f["state"]]
+    scr = [a for a in f["tune_r"] if a in f["step_w"] and a not in f["state"] and a not in f["hist"]]
+    return _uniq(ex), _uniq(scr)
+
+
+def batch_finalized(repo):
+    """does Sampler.sample call finalize() on its batch handler?"""
+    tree = ast.parse(open(os.path.join(repo, "cuqi", "experimental", "mcmc", "_sampler.py")).read())
+    for c in tree.body:
+        if isinstance(c, ast.ClassDef) and c.name == "Sampler":
+            for m in c.body:
+                if isinstance(m, ast.FunctionDef) and m.name == "sample":
+                    return any(isinstance(n, ast.Call) and isinstance(n.func, ast.Attribute) and n.func.attr == "finalize"
+                               for n in ast.walk(m))
+    raise FootprintError("Sampler.sample not found")
+
+
 def tune_ok(f):
     sr = sem_reads(f)
     return all(a in f["state"] or a not in sr for a in f["tune_w"])
@@ -863,7 +911,7 @@ def render(exp, leg, excuses, stores=None):
     """Coq source of Gen_C14.v.  excuses: {class: [attrs]} used for the `excused` lemma of a class whose plain
     footprint check fails only because of hidden randomness."""
     L = ["(* generated by harness/tr_footprint.py from the source of /repo on every run; do not edit *)",
-         "From CV Require Import Base.Tac Base.Cmp Model.C14_Chain Proofs.C14_Chain.",
+         "From CV Require Import Base.Tac Base.Cmp Model.C14_Chain Model.C14_Warm Proofs.C14_Chain Proofs.C14_Warm.",
          "From Coq Require String. Import String.StringSyntax. Local Open Scope string_scope.", ""]
     b = lambda x: "true" if x else "false"
     n = 0
@@ -892,6 +940,16 @@ def render(exp, leg, excuses, stores=None):
                      "Proof. intros V Rnd stepS. exact (resume_from_facts V Rnd %s %s_facts stepS %s). Qed."
                      % (c, c, c, c, c, c, c, _cl(ex), c, lem))
             n += 1
+        # checkpoints between warm-up calls
+        L.append("Lemma %s_warm : warm_resume_ok [] [] %s_facts = %s. Proof. vm_compute. reflexivity. Qed." % (c, c, b(warm_resume_ok([], [], f))))
+        n += 1
+        if not warm_resume_ok([], [], f):
+            wex, wscr = warm_excuses(f)
+            L.append("Lemma %s_warm_excused : warm_resume_ok %s %s %s_facts = %s. Proof. vm_compute. reflexivity. Qed."
+                     % (c, _cl(wex), _cl(wscr), c, b(warm_resume_ok(wex, wscr, f))))
+            n += 1
+        L.append("Definition %s_external : list String.string := %s.  (* helper objects whose internals are outside the analysis *)"
+                 % (c, _cl(f.get("external", []))))
         if reinit_ok(f):
             L.append("Lemma %s_reinit_frame : forall (V : Type) (initS : store V -> store V),\n"
                      "  (forall s a, ~ In a (f_init_w %s_facts) -> initS s a = s a) ->\n"
